@@ -178,10 +178,10 @@ pub fn check_query(qc: &QueryCase, si: &SearchInstance, rep: &mut Report) {
             Err(a) => {
                 let which = if ri == 0 { "first-route" } else { "alternative" };
                 // classify by root cause where the monitor can observe it
-                let sig = if matches!(alg, Alg::Yens { .. }) && ri > 0 {
-                    "C03|yens|alternative-route-state-not-accumulated".to_string()
-                } else if reopened {
+                let sig = if reopened {
                     "C03|run_a_star|stale-state-after-reopened-vertex".to_string()
+                } else if matches!(alg, Alg::Yens { .. }) && ri > 0 {
+                    "C03|yens|alternative-route-state-not-accumulated".to_string()
                 } else {
                     format!("C03|{}|{orient}|{dirn}|{}|{units}|{which}", alg.family(), a.clause)
                 };
